@@ -8,6 +8,19 @@ import (
 
 // Execute runs a scenario in the mode it names.
 func Execute(s *scn.Scenario, opt Options) *Result {
+	if len(s.Before) > 0 {
+		// earlier runs of the same process that are part of this scenario's history
+		quiet := opt
+		quiet.Trace = false
+		for _, b := range s.Before {
+			bb := *b
+			bb.Before = nil
+			Execute(&bb, quiet)
+		}
+		v := *s
+		v.Before = nil
+		return Execute(&v, opt)
+	}
 	if s.Mode == "G" {
 		return RunG(s, opt)
 	}
@@ -29,18 +42,58 @@ func HasClass(r *Result, class string) bool {
 // document subtrees, expression sub-trees and finally preemptions, keeping a
 // candidate only while a violation of the same class persists. It returns the
 // smallest scenario found and the number of executions spent.
-func Shrink(s *scn.Scenario, class string, opt Options, maxExecs int, maxTime time.Duration) (*scn.Scenario, int) {
+//
+// A scenario with a Before list depends on state the simulator cannot reset,
+// so every candidate of it is executed in a pristine child process (fresh);
+// the earlier runs are minimised first.
+func Shrink(s *scn.Scenario, class string, opt Options, maxExecs int, maxTime time.Duration, fresh func(*scn.Scenario) *Result) (*scn.Scenario, int) {
 	opt.Trace = false
 	execs := 0
 	start := time.Now()
 	cur := s.Clone()
+	// once a violation is known to depend on state that survives between runs,
+	// this (polluted) process can no longer judge any candidate
+	useFresh := len(s.Before) > 0 && fresh != nil
 	fails := func(c *scn.Scenario) (*Result, bool) {
 		if execs >= maxExecs || time.Since(start) > maxTime {
 			return nil, false
 		}
 		execs++
-		r := Execute(c, opt)
-		return r, HasClass(r, class)
+		var r *Result
+		if useFresh {
+			r = fresh(c)
+		} else {
+			r = Execute(c, opt)
+		}
+		return r, r != nil && HasClass(r, class)
+	}
+	// the history of earlier runs first: delta debugging on the Before list
+	for len(cur.Before) > 0 {
+		n := len(cur.Before)
+		reduced := false
+		for size := (n + 1) / 2; size >= 1 && !reduced; size /= 2 {
+			for lo := 0; lo < n && !reduced; lo += size {
+				hi := lo + size
+				if hi > n {
+					hi = n
+				}
+				c := cur.Clone()
+				c.Before = append(c.Before[:lo:lo], c.Before[hi:]...)
+				if _, bad := fails(c); bad {
+					cur = c
+					reduced = true
+				}
+				if execs >= maxExecs || time.Since(start) > maxTime {
+					return cur, execs
+				}
+			}
+			if size == 1 {
+				break
+			}
+		}
+		if !reduced {
+			break
+		}
 	}
 	// try tries a candidate; mode G candidates are tried with the parent's
 	// explicit schedule first and then with a few freshly drawn ones.
@@ -150,6 +203,27 @@ func candidates(s *scn.Scenario, stage int) []*scn.Scenario {
 				chunks(n, func(lo, hi int) {
 					add(func(c *scn.Scenario) { c.Tasks[ti] = append(c.Tasks[ti][:lo:lo], c.Tasks[ti][hi:]...) })
 				})
+			}
+		}
+		// the operations of the earlier runs that are part of the history
+		for bi := range s.Before {
+			bi := bi
+			if n := len(s.Before[bi].Steps); n > 1 {
+				chunks(n, func(lo, hi int) {
+					add(func(c *scn.Scenario) {
+						c.Before[bi].Steps = append(c.Before[bi].Steps[:lo:lo], c.Before[bi].Steps[hi:]...)
+					})
+				})
+			}
+			for ti := range s.Before[bi].Tasks {
+				ti := ti
+				if n := len(s.Before[bi].Tasks[ti]); n > 1 {
+					chunks(n, func(lo, hi int) {
+						add(func(c *scn.Scenario) {
+							c.Before[bi].Tasks[ti] = append(c.Before[bi].Tasks[ti][:lo:lo], c.Before[bi].Tasks[ti][hi:]...)
+						})
+					})
+				}
 			}
 		}
 	case 2: // faults and configuration
